@@ -390,11 +390,18 @@ mtbl_fileset_reload_now(struct mtbl_fileset *f)
 #endif
 	my_gettime(clock, &now);
 
+	/*
+	 * Our merger is out of date if the shared fileset was reloaded through
+	 * another handle since we last looked, even if this reload changes nothing.
+	 */
+	bool stale = (f->fs_last.tv_sec != f->shared_fs->fs_last.tv_sec) ||
+		     (f->fs_last.tv_nsec != f->shared_fs->fs_last.tv_nsec);
+
 	f->shared_fs->n_loaded = 0;
 	f->shared_fs->n_unloaded = 0;
 	assert(f->shared_fs->my_fs != NULL);
 	my_fileset_reload(f->shared_fs->my_fs);
-	if (f->shared_fs->n_loaded > 0 || f->shared_fs->n_unloaded > 0)
+	if (stale || f->shared_fs->n_loaded > 0 || f->shared_fs->n_unloaded > 0)
 		fs_reinit_merger(f);
 	f->shared_fs->fs_last = now;
 	f->fs_last = now;
